@@ -3,7 +3,7 @@
 import json, glob, re
 rows = []
 n = caught_own = caught_any = 0
-for d in sorted(glob.glob("/verif/seeded/C*_[mbcd]*")):
+for d in sorted(glob.glob("/verif/seeded/C*_[mbcdefg]*")):
     m = json.load(open(d + "/meta.json"))
     n += 1
     cb = m.get("caught_by", [])
